@@ -229,7 +229,9 @@ def run(ctx, rep):
             flat, unres = in_cell(norm_segs(r.segs), n, 1 << 28, (1 << 32) - 1)
             lost = [u for t in seg_terms_deep(flat) for u in truncs_in(t)]
             # in the top cell the last byte keeps only 8 of the remaining bits: lengths >= 2^28 wrap unless refused
-            refused = any(g['kind'] in ('assert', 'panic-arm') and _bounds_len(g['cond'], n) for g in I.guards)
+            # refused = some assertion of the function is false for every length of the top cell (so the function panics there)
+            top_lo = (1 << 28) - (4 if incl else 0)
+            refused = any(g['kind'] in ('assert', 'panic-arm') and _false_on_cell(g['cond'], n, top_lo, (1 << 64) - 1) for g in I.guards)
             if lost and not refused:
                 note('pkg-length', name, 'include_self=%s: length >= 2^28 is truncated to 28 bits' % bool(incl), lost[0][1], 8, f.bodies[name]['sp'], 'usize')
             elif not lost and not refused and not unres:
@@ -358,8 +360,16 @@ def _roots(v, out, seen=None):
         else:
             for x in v: _roots(x, out, seen)
 
-def _bounds_len(cond, n):
-    return n in subterms(cond)
+def _false_on_cell(cond, n, lo, hi):
+    """the condition evaluates to false for every value of n in [lo, hi] (interval folding of its comparisons)"""
+    if n not in subterms(cond): return False
+    saved = sym.CTX
+    sym.CTX = {n: (lo, hi)}
+    try:
+        c = rebuild(rebuild(cond, lambda x: None), lambda x: None)
+    finally:
+        sym.CTX = saved
+    return c == FALSE
 
 def int_bits_(t):
     from evalr import int_bits
